@@ -144,7 +144,12 @@ func (w *World) applyMisc(ds *Doc, op sim.Op, o *Obs) bool {
 		}
 	case "cellimg": // I[8]=table (1000+k: the k-th table nested in a cell of one of the document's tables), I[9]=row, I[10]=col
 		t := ds.table(op.Int(8))
-		if op.Int(8) >= 1000 {
+		if op.Int(8) >= 2000 { // a table that is not in the body yet
+			t = nil
+			if len(ds.Detached) > 0 {
+				t = ds.Detached[(op.Int(8)-2000)%len(ds.Detached)]
+			}
+		} else if op.Int(8) >= 1000 {
 			t = nil
 			var nested []*document.Table
 			for _, top := range ds.Tables {
